@@ -141,13 +141,9 @@ impl Setsum {
 
     /// Creates a setsum from an array of SETSUM_BYTES.
     pub fn from_digest(digest: [u8; SETSUM_BYTES]) -> Setsum {
-        let mut state: [u32; SETSUM_COLUMNS] = [0u32; SETSUM_COLUMNS];
-        for (col, item) in state.iter_mut().enumerate().take(SETSUM_COLUMNS) {
-            let idx = col * SETSUM_BYTES_PER_COLUMN;
-            let mut buf = [0u8; 4];
-            buf.clone_from_slice(&digest[idx..idx + 4]);
-            *item = u32::from_le_bytes(buf);
-        }
+        // Reduce every column modulo its prime:  a digest is 32 arbitrary bytes, and the arithmetic
+        // (add_state, invert_state) is only defined on columns in [0, p).
+        let state = hash_to_state(&digest);
         Self { state }
     }
 
